@@ -725,6 +725,18 @@ func (o *qOracle) validateDequeue(step int, prev, next Snap, r resolvedOp, res Q
 // ------------------------------------------------------------------------- lease mutations
 
 func (o *qOracle) leaseEffect(step int, kind string, p Msg, next Snap, r resolvedOp, explained map[string]bool) *verifkit.Failure {
+	f := o.leaseEffect1(step, kind, p, next, r, explained)
+	if f != nil {
+		// a live lease that was presented correctly and whose message is back in the queue as if the
+		// lease had expired: the lease ended without ack, nack, expiry or operator (exclusivity, C03)
+		if n, ok := next[p.ID]; ok && n.State == "queued" && clearedLease(n) && n.Next == r.Now && !(kind == "nack" && r.Dur <= 0) && !propIn(f.Prop, "C03") {
+			f.Prop += ",C03"
+		}
+	}
+	return f
+}
+
+func (o *qOracle) leaseEffect1(step int, kind string, p Msg, next Snap, r resolvedOp, explained map[string]bool) *verifkit.Failure {
 	now := r.Now
 	n, ok := next[p.ID]
 	explained[p.ID] = true
